@@ -1133,7 +1133,7 @@ static bool g_expect_unsolvable = false; // set by generators that build problem
       if (layer == "L3" || layer == "L3d") check_timelines(p, tl, out, c04, c05, c06, c01, r);
       if (g_expect_unsolvable) c04.push_back("a problem in which every alternative overlaps a pinned fact on its state variable was reported solved");
       if (layer == "L1b") check_fields(flds, out, c17, r);
-      if (layer == "L1m") check_methods(mths, out, c16, r);
+      if (layer == "L1m") check_methods(mths, out, c16, c01, r);
       if (layer == "L2p") check_shared(sh, out, c01, c03, r);
       if (layer == "L3b") check_temporal(tmp, g_plan, c01, c06, r);
     }
@@ -1230,7 +1230,7 @@ static bool g_expect_unsolvable = false; // set by generators that build problem
     for (auto &f : p.feats) r.classes.insert(f);
     r.classes.insert(out.verdict == SOLVED ? "verdict: solved" : out.verdict == UNSOLVABLE ? "verdict: unsolvable" : "verdict: rejected");
     r.classes.insert(p.planted ? "planted" : "free");
-    if (layer == "L3d") r.nontrivial = true;
+    if (layer == "L3d" || layer == "L1m") r.nontrivial = true;
     else if ((P == "C01" || P == "C06") && (layer == "L3" || layer == "L2p" || layer == "L3b")) r.nontrivial = out.verdict == SOLVED && r.nontrivial;
     else if (P == "C01") r.nontrivial = out.verdict == SOLVED && (evaluated_mixed || p.feats.count("arithmetic disequality") || p.feats.count("disjunction statement") || !p.objvars.empty());
     else if (P == "C02") r.nontrivial = out.verdict == UNSOLVABLE || p.planted;
